@@ -17,7 +17,7 @@ func runC06(p *Program, r *Report) {
 	for _, m := range []struct {
 		r string
 		n int
-	}{{"C06.R1", 2}, {"C06.R2", 4}, {"C06.R3", 1}, {"C06.R4", 1}, {"C06.R5", 4}} {
+	}{{"C06.R1", 2}, {"C06.R2", 4}, {"C06.R3", 1}, {"C06.R4", 1}, {"C06.R5", 4}, {"C06.R6", 4}} {
 		r.Min(m.r, m.n)
 	}
 	tsp := p.SSAPkg("template")
@@ -58,11 +58,27 @@ func runC06(p *Program, r *Report) {
 	} else {
 		pe := newPathExplorer(p, commit)
 		paths := pe.Paths()
+		// helpers called by commit that reset maps on all their paths
+		helperResets := map[*ssa.Call]map[string]bool{}
+		for _, b := range commit.Blocks {
+			for _, in := range b.Instrs {
+				if c, ok := in.(*ssa.Call); ok {
+					if g := staticCallee(c.Common()); g != nil && g.Pkg == commit.Pkg && g != commit {
+						if rs := resetsOnAllPaths(p, g); len(rs) > 0 {
+							helperResets[c] = rs
+						}
+					}
+				}
+			}
+		}
 		for _, field := range []string{"called", "actionNodeEdits", "templateNodeEdits", "textNodeEdits"} {
-			var resets []*ssa.Store
-			for _, st := range storesToField(commit, pkgTemplate, "escaper", field) {
-				if _, ok := st.Val.(*ssa.MakeMap); ok {
-					resets = append(resets, st)
+			var resets []ssa.Instruction
+			for _, st := range freshMapStores(commit, field) {
+				resets = append(resets, st)
+			}
+			for c, rs := range helperResets {
+				if rs[field] {
+					resets = append(resets, c)
 				}
 			}
 			ok := len(resets) > 0
@@ -76,7 +92,6 @@ func runC06(p *Program, r *Report) {
 					ok = false
 				}
 			}
-			// the reset comes after the loop that applies the edits
 			r.Check(ok && n > 0, "C06.R2", "template.(*escaper).commit#reset:"+field, p.Pos(commit.Pos()), "every return of commit() has replaced "+field+" by a fresh map", "commit() can return without clearing "+field+": the same edits are applied again by the next commit (a second sanitizer on every earlier action)")
 		}
 	}
@@ -110,6 +125,9 @@ func runC06(p *Program, r *Report) {
 			}
 		}
 	}
+	// ---- R6 memo discipline --------------------------------------------------------------------------------
+	checkMemoDiscipline(p, r, "C06.R6")
+	checkMemoOutput(p, r, "C06.R7")
 	// ---- R4 memo key -------------------------------------------------------------------------------------
 	checkMemoKey(p, r, "C06.R4")
 	// ---- R5 who may rewrite nodes --------------------------------------------------------------------------
